@@ -1,7 +1,7 @@
 #!/venv/bin/python
 """Copy the confirmed seeded changes from /tmp/seeds into /verif/seeded/<id>/ with meta.json.
 
-usage: import_seeds.py <results file produced by tools/verify_seed.sh>"""
+usage: import_seeds.py <results file produced by tools/verify_seed.sh> [<seed source dir> [<id prefix>]]"""
 import json
 import os
 import re
@@ -10,14 +10,16 @@ import subprocess
 import sys
 
 res_file = sys.argv[1]
+SRC = sys.argv[2] if len(sys.argv) > 2 else "/tmp/seeds"
+PREFIX = sys.argv[3] if len(sys.argv) > 3 else ""
 head = subprocess.run(["git", "-C", "/repo", "rev-parse", "--short", "HEAD"], capture_output=True, text=True).stdout.strip()
 for line in open(res_file):
     m = re.match(r'(C\d\d)([ab]) clean_demo=(\d+) applies=(\d) mut_demo=(\S+) tests="([^"]*)" flagged=\[(.*)\]', line.strip())
     if not m:
         continue
     prop, var, clean, applies, mut, tests, flagged = m.groups()
-    ident = prop + var
-    src = f"/tmp/seeds/{prop}/{var}"
+    ident = PREFIX + prop + var
+    src = f"{SRC}/{prop}/{var}"
     confirmed = clean == "0" and applies == "0" and mut == "1" and tests.startswith("2 failed, 219 passed")
     if not confirmed:
         print("NOT CONFIRMED", line.strip())
